@@ -3,6 +3,7 @@
    nat / N / Z / positive stay the extracted inductives.  No Extract Constant. *)
 From Coq Require Import Extraction ExtrOcamlBasic ZArith NArith List.
 From Selfies Require Import Base Generated Lex Atoms Grammar Compat Decoder.
+From Selfies Require Import IndexSpec.
 Extraction Language OCaml.
 Set Extraction AccessOpaque.
 Extraction "model.ml"
@@ -12,4 +13,5 @@ Extraction "model.ml"
   get_index_from_selfies get_selfies_from_index index_digit
   process_atom_symbol smiles_to_atom atom_to_smiles modernize_symbol
   next_atom_state next_branch_state next_ring_state
-  decoder decode_graph.
+  decoder decode_graph
+  doc_digit doc_value.
